@@ -4,7 +4,7 @@ use crate::c02::run_graph;
 use crate::core::*;
 #[allow(unused_imports)]
 use crate::core::StatsExt;
-use crate::gen::{gen_graph, GraphParams};
+use crate::gen::{exhaustive_c03_count, exhaustive_c03_graph, gen_graph, GraphParams};
 use crate::loader::*;
 use crate::model::reachable_cycle;
 use crate::spec::*;
@@ -655,8 +655,27 @@ impl Prop for C03 {
     fn run(&self, seed: u64, index: u64, _tier: Tier, stats: &mut Stats) -> Vec<Violation> {
         let mut rng = Rng::new(seed);
         let (p, avf) = params(index, &mut rng);
-        let mixed = index % 16 == 5;
-        let mut spec = if mixed { mixed_spec(&mut rng) } else { gen_graph(&p, &mut rng) };
+        // runs 0..EXH: every acyclic use/forward graph over up to 3 files (incl. double loads of one
+        // module under two spellings), each under 8 draws of spellings, namespaces, probes and assignments
+        let exh = 8 * (exhaustive_c03_count(1) + exhaustive_c03_count(2) + exhaustive_c03_count(3));
+        let exhaustive = index < exh;
+        let mixed = !exhaustive && index % 16 == 5;
+        let mut spec = if exhaustive {
+            let k = index / 8;
+            let (n, code) = if k < 1 {
+                (1, 0)
+            } else if k < 1 + exhaustive_c03_count(2) {
+                (2, k - 1)
+            } else {
+                (3, k - 1 - exhaustive_c03_count(2))
+            };
+            stats.inc("probe:exhaustive_small_graphs");
+            exhaustive_c03_graph(n, code, index % 8, &mut rng)
+        } else if mixed {
+            mixed_spec(&mut rng)
+        } else {
+            gen_graph(&p, &mut rng)
+        };
         if !mixed {
             add_probes(&mut spec, avf, &mut rng);
         }
@@ -727,7 +746,7 @@ impl Prop for C03 {
         crate::core::world_a_extra(stats)
     }
     fn rule(&self) -> String {
-        "One run = one generated acyclic @use/@forward graph (1-4 files, canonical or aliased url spellings, 0-2 load paths) in which every module defines $id<i>: unique-id() and $v<i>: 0 and emits a marker rule, and users print and assign module variables through their namespaces; compiled by the real library through SimLoader and judged against a reference executor that runs each module once. Non-trivial = at least one load; distinct = distinct digests of (loader history, output with ids normalised).".into()
+        "Runs 0..1048 enumerate EVERY acyclic @use/@forward graph over up to 3 files in which a pair of files carries nothing, one @use, one @forward, two @uses under two spellings, or a @use and a @forward (1 + 5 + 125 graphs), each under 8 draws of spellings, namespaces, probes and assignments. Every other run = one generated acyclic @use/@forward graph (1-4 files, canonical or aliased url spellings, look-alike file names, 0-2 load paths; every 16th: modules reached by meta.load-css before their first @use) in which every module defines $id<i>: unique-id() and $v<i>: 0 and emits a marker rule, and users print and assign module variables through their namespaces; compiled by the real library through SimLoader and judged against a reference executor that runs each module once. Non-trivial = at least one load; distinct = distinct digests of (loader history, output with ids normalised).".into()
     }
     fn assumptions(&self) -> Vec<String> {
         vec![
@@ -744,7 +763,7 @@ impl Prop for C03 {
         if runs > 0 && judged * 10 < runs * 9 {
             errs.push(format!("only {judged} of {runs} runs were judged (<90%)"));
         }
-        for p in ["probe:module_loaded_from_several_places", "probe:id_compared", "probe:read_after_assignment", "probe:read_via_forward", "probe:mixed_loadcss_before_use", "probe:assigned_by_module_mixin"] {
+        for p in ["probe:module_loaded_from_several_places", "probe:id_compared", "probe:read_after_assignment", "probe:read_via_forward", "probe:mixed_loadcss_before_use", "probe:assigned_by_module_mixin", "probe:exhaustive_small_graphs"] {
             if runs >= 1000 && stats.c.get(p) == 0 {
                 errs.push(format!("probe {p} stuck at zero"));
             }
